@@ -402,8 +402,9 @@ class Sym:
 
     def _name(self, name: str, at: int, depth: int, cenv: dict) -> Term:
         key = (name, at)
-        if not cenv and not self._acc_busy and key in self._memo:
-            return self._memo[key]
+        mkey = (name, at, frozenset(self._acc_busy)) if self._acc_busy else key
+        if not cenv and mkey in self._memo:
+            return self._memo[mkey]
         if key in self._busy:
             return ("rec", name)
         defs: List[Def] = self.rd.reaching(at, name)
@@ -421,8 +422,8 @@ class Sym:
             res = mk_alt(vals, self.max_alts, name)
         finally:
             self._busy.discard(key)
-        if not cenv and not self._acc_busy:
-            self._memo[key] = res
+        if not cenv:
+            self._memo[mkey] = res
         return res
 
     def _def_value(self, sd: Def, name: str, weak: List[Def], depth: int, cenv: dict) -> Term:
